@@ -46,7 +46,7 @@ const RATES_1200: [f32; 3] = [44100.0, 48000.0, 50000.0];
 const RATES_9600: [f32; 2] = [50000.0, 100000.0];
 
 fn frame_strategy() -> impl Strategy<Value = FrameSpec> {
-    (prop_oneof![10u16..40, 10u16..301], 0u8..6, any::<u32>(), 2u8..5).prop_map(|(len, pat, seed, sep_flags)| FrameSpec { len, pat, seed, sep_flags })
+    (prop_oneof![10u16..40, 10u16..301], 0u8..6, any::<u32>(), 2u8..5).prop_map(|(len, pat, seed, sep_flags)| FrameSpec { len, pat, seed, sep_flags, idle_ones: 0 })
 }
 
 fn case_strategy() -> BoxedStrategy<C20Case> {
